@@ -1,5 +1,6 @@
 import Driver.Validate
 import Driver.TimeoutV
+import Driver.Oracle
 open Driver
 
 /-- Reads blocks `S <model>` … `.` from stdin, answers one verdict line per block. -/
@@ -13,6 +14,7 @@ partial def readBlock (h : IO.FS.Stream) (acc : Array String) : IO (Option (Arra
 def runBlock (hdr : String) (lines : Array String) : String :=
   match (hdr.splitOn " ").filter (· ≠ "") with
   | "S" :: "timeout" :: _ => (validate timeoutModel lines).render
+  | "S" :: "oracle" :: _ => runOracle lines
   | _ => "INCONCLUSIVE 0 unknown model: " ++ hdr
 
 partial def loop (h : IO.FS.Stream) : IO Unit := do
